@@ -125,6 +125,14 @@ def gen_cases(ctx):
         c["formatter"] = ["gofmt", "noop"][len(cases) % 2]   # never goimports: it would repair a wrong import list
         c["td"] = {}
         cases.append(c)
+    # replace-type changes what the data model must say: the type strings of every parameter and result, normalised through the import list the same
+    # file reports, against the replacement model (differential run of C13, both placements, every level)
+    from . import c13
+    rng = ctx.rng
+    for j, r in enumerate(c13.REPLACEMENTS[: (4 if ctx.tier == "quick" else len(c13.REPLACEMENTS))]):
+        for level in (("root", "iface") if ctx.tier == "quick" else ("root", "pkg", "iface", "cfg", "recparent", "pkg+override")):
+            cases.append({"kind": "replace-type", "seed": rng.randrange(1 << 30), "repl": {k: list(v) for k, v in r.items()}, "level": level,
+                          "placement": ["inpkg", "outpkg"][j % 2], "builtin_formatter": "gofmt", "template": "data-model", "formatter": "noop"})
     return cases
 
 
@@ -176,6 +184,11 @@ UNUSED_IMPORT = re.compile(r"imported( as \S+)? and not used")
 
 
 def eval_case(ctx, case):
+    if case["kind"] == "replace-type":
+        from . import c13
+        v = c13.eval_case(ctx, case)
+        v.tags = ["replace-type"] + [t for t in v.tags if t.startswith("level=") or t.startswith("placement=")]
+        return [(case, v)]
     known = ctx.known
     ifaces = [i for i in c01.case_ifaces(case) if not c02.c01_known(known, "data-model", i["feature"])]
     if case.get("only"):
